@@ -38,6 +38,20 @@ func (e *Engine) verifyFunc(fc *FuncContract, proved map[string]bool) *Unit {
 		f.env[fv] = Value{T: t, Ty: fv.Type()}
 		u.assume(tTrue, u.wf(t, fv.Type(), u.wm0))
 		u.assume(tTrue, mk(SBool, ">", t, intConst(0)))
+		// the cell of a captured variable is private to the enclosing function and this
+		// closure (if no other closure captures it and its address is not passed on):
+		// calls made by the closure cannot modify it
+		if pt, ok := fv.Type().Underlying().(*types.Pointer); ok && freeVarPrivate(fn, fv) {
+			switch pt.Elem().Underlying().(type) {
+			case *types.Struct, *types.Array:
+			default:
+				if f.localCells == nil {
+					f.localCells = map[string][]Term{}
+				}
+				r := u.cellRegion(pt.Elem())
+				f.localCells[r] = append(f.localCells[r], t)
+			}
+		}
 	}
 	f.entrySt = st.clone()
 	pkg := e.typesPkgByPath(funcPkgPath(fn))
@@ -533,4 +547,52 @@ func (u *Unit) frameSets(f *Frame, fc *FuncContract, pkg *types.Package, entryHe
 		}
 	}
 	return whole, refs, false
+}
+
+// freeVarPrivate: the variable captured as fv is, in the enclosing function, used only by
+// loads, stores and the creation of this very closure.
+func freeVarPrivate(fn *ssa.Function, fv *ssa.FreeVar) bool {
+	parent := fn.Parent()
+	if parent == nil {
+		return false
+	}
+	idx := -1
+	for i, v := range fn.FreeVars {
+		if v == fv {
+			idx = i
+		}
+	}
+	for _, b := range parent.Blocks {
+		for _, ins := range b.Instrs {
+			mc, ok := ins.(*ssa.MakeClosure)
+			if !ok || mc.Fn != fn || idx >= len(mc.Bindings) {
+				continue
+			}
+			al, ok := mc.Bindings[idx].(*ssa.Alloc)
+			if !ok {
+				return false
+			}
+			refs := al.Referrers()
+			if refs == nil {
+				return false
+			}
+			for _, r := range *refs {
+				switch x := r.(type) {
+				case *ssa.Store:
+					if x.Val == al {
+						return false
+					}
+				case *ssa.UnOp, *ssa.DebugRef:
+				case *ssa.MakeClosure:
+					if x.Fn != fn {
+						return false
+					}
+				default:
+					return false
+				}
+			}
+			return true
+		}
+	}
+	return false
 }
